@@ -56,7 +56,7 @@ ASSUMPTIONS = [
     "staging happens under tempfile.tempdir, which the check points at a private directory that is part of the snapshot",
     "rmtree / remove faults are injected only for calls made by serializer code (not for TemporaryDirectory's own clean-up)",
 ]
-BUDGET = {"quick": {"soft_s": 150}, "thorough": {"soft_s": 900}}
+BUDGET = {"quick": {"soft_s": 300}, "thorough": {"soft_s": 1200}}
 MIN_EVALUATIONS = {"quick": 250, "thorough": 1000}
 REQUIRED_COUNTERS = ["eval:target_state_after_failed_save", "eval:other_paths_unchanged", "eval:write_once_target_unchanged", "injected:line", "injected:io", "injected:natural",
                      "injected:base_exception", "typed_path_fault_free_saves"]
